@@ -32,7 +32,7 @@ def model_names(tier):
       "ens-rtl", "ens-rtl-kfl-outcalib",
       "stack-lattice", "stack-linear",
       "linear-cat-diamond", "lattice-cat-diamond", "ens-explicit-lincomb-minonly",
-      "ens-avg-bounds-free-lattice", "linear-bounds-positive",
+      "ens-avg-bounds-free-lattice", "linear-bounds-positive", "ens-kfl-bounds-free-lattice",
   ]
   if tier != "quick":
     base += ["lattice-convex-clamp", "lattice-trust-dominance", "lattice-learned-keypoints",
@@ -141,7 +141,14 @@ def build(name, seed=7):
   elif name.startswith("ens-"):
     kw = dict(feature_configs=feature_configs(tfl, sizes=(2, 2, 2, 2)), num_lattices=3, lattice_rank=2,
               output_initialization=[0.0, 1.0], random_seed=seed)
-    if name == "ens-avg-bounds-free-lattice":
+    if name == "ens-kfl-bounds-free-lattice":
+      # the same with Kronecker-factored lattices: bounds of a lattice without any monotonic input
+      lo, hi = 0.0, 1.0
+      pairs = []
+      kw.update(feature_configs=feature_configs(tfl, sizes=(2, 2, 2, 2), extra={"c": dict(monotonicity=None)}),
+                lattices=[["a", "b"], ["u", "c"], ["a", "c"]], output_min=lo, output_max=hi,
+                parameterization="kronecker_factored", num_terms=2)
+    elif name == "ens-avg-bounds-free-lattice":
       # one lattice sees only unconstrained features (categorical without ordering pairs): its
       # kernel has no shape constraint at all, only the output bounds
       lo, hi = 0.0, 1.0
@@ -396,7 +403,7 @@ def work(ctx, name):
 def run(ctx):
   names = alpha.rotate(model_names(ctx.tier), ctx.seed)
   ctx.rule = (
-      "21 (thorough 27) real models: CalibratedLinear {plain, bounds, output calibration}, "
+      "22 (thorough 28) real models: CalibratedLinear {plain, bounds, output calibration}, "
       "CalibratedLattice {hypercube, simplex+bounds, output calibration, kronecker_factored +- bounds}, "
       "CalibratedLatticeEnsemble {explicit avg, explicit linear-combination+bounds, max-only and "
       "min-only linear-combination, random shared calibrators, rtl_layer, rtl+kfl+output calibration}, "
